@@ -107,7 +107,23 @@ fn gen_base_name(rng: &mut Rng) -> String {
 }
 
 fn gen_san(rng: &mut Rng) -> String {
-	match rng.below(12) {
+	match rng.below(14) {
+		// the longest textual forms of an IPv6 address (full groups with an embedded dotted quad: up to 45 characters)
+		12 => format!(
+			"{:04x}:{:04x}:{:04x}:{:04x}:{:04x}:{:04x}:{}.{}.{}.{}",
+			rng.below(65536), rng.below(65536), rng.below(3), 0, 0, if rng.chance(1, 2) { 0xffff } else { rng.below(65536) },
+			100 + rng.below(156), 100 + rng.below(156), 100 + rng.below(156), 100 + rng.below(156)
+		),
+		13 => {
+			// any address in one of its other spellings: upper case, full groups, compressed
+			let a = std::net::Ipv6Addr::from((rng.next_u64() as u128) << 64 | rng.next_u64() as u128 & if rng.chance(1, 2) { !0 } else { 0xffff_0000_0000_ffff });
+			let g = a.segments();
+			match rng.below(3) {
+				0 => a.to_string().to_uppercase(),
+				1 => g.iter().map(|x| format!("{:04X}", x)).collect::<Vec<_>>().join(":"),
+				_ => a.to_string(),
+			}
+		},
 		0 => format!("{}.{}.{}.{}", rng.below(256), rng.below(256), rng.below(256), rng.below(256)),
 		1 => "::1".to_string(),
 		2 => "2001:0db8:85a3:0000:0000:8a2e:0370:7334".to_string(),
